@@ -284,7 +284,7 @@ def gen_drv(tier, rng):
         fsel = FORMS if thorough else [FORMS[n % len(FORMS)]]
         for j, f1 in enumerate(fsel):
             f2 = FORMS[(n // len(FORMS) + j) % len(FORMS)]
-            if not thorough and n % 4 and p[2:] != q[2:]:
+            if not thorough and n % 5 and p[2:] != q[2:]:
                 continue
             cases.append(drv_case("fan" if n % 3 else "chain",
                                   [p + (f1, n % 7 == 0), q + (f2, n % 11 == 0)],
@@ -297,7 +297,7 @@ def gen_drv(tier, rng):
                     continue
                 cases.append(drv_case("fan", [(lo1, hi1, 0, d1, f1, False), (lo2, hi2, 0, d2, f2, False)], tag="same"))
     # (2) three placements
-    for _ in range(800 if not thorough else 40000):
+    for _ in range(800 if not thorough else 20000):
         ps = [rng.choice(slots) + (rng.choice(FORMS), rng.random() < 0.2) for _ in range(3)]
         if rng.random() < 0.6:   # bias to near-misses: a partition of the signal
             cut = sorted(rng.sample(range(1, 4), 2))
@@ -319,7 +319,7 @@ def gen_drv(tier, rng):
             for (lo, hi) in RANGES:
                 for mod in range(3):
                     n += 1
-                    if not thorough and n % 6:
+                    if not thorough and n % 8:
                         continue
                     cases.append(drv_case("fan" if n % 2 else "chain", [p + (FORMS[n % len(FORMS)], False)],
                                           [(kind, lo, hi, mod)], tag="logic+out"))
@@ -339,12 +339,14 @@ def gen_drv(tier, rng):
             for d in "nio":
                 cases.append(drv_case("chain", [], [(kind,) + r + (2,)], [(0, d)], tag="out+port"))
     for d1, d2 in itertools.product("nio", repeat=2):
-        cases.append(drv_case("fan", [], [], [(0, d1), (0, d2)], tag="port+port"))
+        if (d1, d2) != ("n", "i"):   # a dir=None port listed before an Input port of the same undriven signal is
+            # itself resolved to Input: outside the theorem's hypothesis (each signal is a port at most once)
+            cases.append(drv_case("fan", [], [], [(0, d1), (0, d2)], tag="port+port"))
         cases.append(drv_case("fan", [(0, 2, 1, "comb", "slice", False)], [], [(0, d1), (0, d2)], tag="port+port"))
     # (6) hand-written: S2 reproducer (8-bit), mixed-width arrays, sliced switch value, zero-width targets
     s8 = {"0": 8}
     cases.append({"k": "drv", "tag": "S2", "sigw": s8, "ports": [], "top": {"st": [
-        ["comb", ["part", ["sig", 0], 1, 2, 2], 0], ["sync" if False else "a", ["sl", ["sig", 0], 4, 8], 0]], "sub": []}})
+        ["comb", ["part", ["sig", 0], 1, 2, 2], 0], ["a", ["sl", ["sig", 0], 4, 8], 0]], "sub": []}})
     cases.append({"k": "drv", "tag": "S2", "sigw": s8, "ports": [], "top": {"st": [], "sub": [
         {"st": [["comb", ["part", ["sig", 0], 1, 2, 2], 0]], "sub": []},
         {"st": [["a", ["sl", ["sig", 0], 4, 8], 0]], "sub": []}]}})
@@ -617,7 +619,7 @@ def gen_cyc(tier, rng):
             return ["add", rexpr(srcs, depth - 1, False), rexpr(srcs, depth - 1, False)]
         return ["c", rng.randrange(2), 1]
 
-    n = 600 if tier == "quick" else 12000
+    n = 600 if tier == "quick" else 6000
     for _ in range(n):
         # signals: s0 (up to 4 bits), s1 (up to 2 bits): <= 6 bits, plus an input s2
         w0, w1 = rng.randrange(2, 5), rng.randrange(1, 3)
@@ -667,8 +669,7 @@ def gen_cyc(tier, rng):
         for tb in range(w):
             for fb in range(w):
                 cases.append({"k": "cyc", "sigw": {"0": w, "2": 2}, "ports": [2], "variant": "word",
-                              "st": [["comb", 0, tb, tb + 1, ["sl", 0, 0, 0] if False else
-                                      ["add", ["b", 0, fb], ["b", 2, 0]], None]]})
+                              "st": [["comb", 0, tb, tb + 1, ["add", ["b", 0, fb], ["b", 2, 0]], None]]})
                 cases.append({"k": "cyc", "sigw": {"0": w, "2": 2}, "ports": [2], "variant": "word-wide",
                               "st": [["comb", 0, 0, w, ["add", ["b", 0, fb], ["sl", 2, 0, 2]], None]]})
                 cases.append({"k": "cyc", "sigw": {"0": w, "2": 2}, "ports": [2], "variant": "self-feed",
